@@ -64,6 +64,12 @@ pub fn finite_corpus() -> Vec<Grp> {
           vec![cyc(4, &[&[1, 2]]), cyc(4, &[&[2, 3]]), cyc(4, &[&[3, 4]])]),
         g("Coxeter B3", 3, &[&[1, 1], &[2, 2], &[3, 3], &[1, 2, 1, 2, 1, 2], &[2, 3, 2, 3, 2, 3, 2, 3], &[1, 3, 1, 3]], 48,
           vec![cyc(6, &[&[1, 2], &[4, 5]]), cyc(6, &[&[2, 3], &[5, 6]]), cyc(6, &[&[3, 6]])]),
+        // presentations with a relator of length one (a generator that is trivial): deductions fill the table out of
+        // row-major order, which is what canonicity pruning of PARTIAL tables has to survive
+        g("Z4 with a trivial generator", 2, &[&[1], &[2, 2, 2, 2]], 4, vec![cyc(4, &[]), cyc(4, &[&[1, 2, 3, 4]])]),
+        g("Z4 with a trivial generator (second)", 2, &[&[2], &[1, 1, 1, 1]], 4, vec![cyc(4, &[&[1, 2, 3, 4]]), cyc(4, &[])]),
+        g("S3 with a trivial generator", 3, &[&[3], &[1, 1], &[2, 2], &[1, 2, 1, 2, 1, 2]], 6, vec![cyc(3, &[&[1, 2]]), cyc(3, &[&[2, 3]]), cyc(3, &[])]),
+        g("Z6 as <a,b,c | a, b^2 c^-1, c^3>", 3, &[&[1], &[2, 2, -3], &[3, 3, 3]], 6, vec![cyc(6, &[]), cyc(6, &[&[1, 2, 3, 4, 5, 6]]), cyc(6, &[&[1, 3, 5], &[2, 4, 6]])]),
         g("Coxeter I2(4)xA1", 3, &[&[1, 1], &[2, 2], &[3, 3], &[1, 2, 1, 2, 1, 2, 1, 2], &[1, 3, 1, 3], &[2, 3, 2, 3]], 16,
           vec![cyc(6, &[&[1, 3]]), cyc(6, &[&[1, 2], &[3, 4]]), cyc(6, &[&[5, 6]])]),
     ]
@@ -85,6 +91,8 @@ pub fn infinite_corpus() -> Vec<Grp> {
         g("BS(1,2)", 2, &[&[1, 2, -1, -2, -2]], 0, vec![]),
         g("Z2*Z2", 2, &[&[1, 1], &[2, 2]], 0, vec![]),
         g("<a,b|a^2>", 2, &[&[1, 1]], 0, vec![]),
+        g("Z as <a,b,c | a, b^2 c^-1>", 3, &[&[1], &[2, 2, -3]], 0, vec![]),
+        g("Z2 with an empty relator", 1, &[&[1, 1], &[1, -1]], 0, vec![]),
     ]
 }
 
